@@ -216,7 +216,7 @@ def _w_values(job, chk):
     values = values[part::4]
     for v, enc in values:
         big = isinstance(v, (bytes, str)) and len(v) > 9000
-        deliveries = ("whole",) if big else (("whole", "segment", "byte") if (tier == "thorough" or not isinstance(v, bytes) or len(v) < 64 or len(v) in (4096, 8192)) else ("whole", "segment"))
+        deliveries = ("whole",) if big else (("whole", "segment", "byte", "lf") if (tier == "thorough" or not isinstance(v, bytes) or len(v) < 64 or len(v) in (4096, 8192)) else ("whole", "segment"))
         for store in STORES:
             for fetch in FETCHES:
                 if big and (store, fetch) not in (("set", "get"), ("set_many", "get_many"), ("cas", "gets")):
@@ -256,6 +256,9 @@ def key_universe(uni, prefix):
     keys = ["a", b"a2", "b" * room, b"c" * room, "k:1", b"\x01\x7f", "E", "END", b"VALUE"]
     if uni:
         keys += ["é", "€" * (room // 3), "snow☃man"]
+    if prefix and len(prefix) < 100:
+        # a caller's key may itself begin with the prefix bytes: it is a different key from the one without them
+        keys += [b"user", prefix + b"user", prefix.decode("latin-1") if prefix.isascii() else prefix]
     return keys
 
 
